@@ -304,6 +304,7 @@ func (w *World) prelude() string {
 (declare-fun msum ((Array Int Bool) (Array Int Int)) Int)
 (declare-fun msumR ((Array Int Bool) (Array Int Int) (Array Int Bool)) Int)
 (declare-fun lsum (Int Int (Array Int Int)) Int)
+(declare-fun pset ((Array Int Int) Int Int) (Array Int Bool))
 (declare-fun u2f (Int) F)
 (declare-fun f2u (F) Int)
 (declare-fun fdiv (F F) F)
